@@ -207,7 +207,7 @@ func (s *stepWorld) checkRelayContent(kind int, r *stepReq, o *stepOut, m hwebso
 
 // VerifC02Order: two relaying requests by a0 in a row reach every other member in request order.
 func VerifC02Order() {
-	s := newStepWorld(stepShape{mods: vModVikja | vModOdal})
+	s := newStepWorld(stepShape{mods: vModVikja | vModOdal, noFree: true})
 	if s.hasAction {
 		assumeValidTS(s.actSec, s.actNanos)
 	}
